@@ -70,6 +70,7 @@ func runC20(r *Run) {
 		libClient bool
 		compress  bool
 		closeRead bool
+		crCancel  bool // the context given to CloseRead is cancelled before the ending
 		netconn   bool
 		abReader  bool
 		abWriter  bool
@@ -81,7 +82,7 @@ func runC20(r *Run) {
 	var desc []string
 	for i := 0; i < nConns; i++ {
 		p := connPlan{pair: t.Pct(25), libClient: t.Draw(2) == 1, compress: t.Draw(2) == 1,
-			closeRead: t.Pct(40), netconn: t.Pct(20), abReader: t.Pct(25), abWriter: t.Pct(25), ping: t.Pct(30), writes: t.Draw(3), ending: t.Draw(len(c20Endings))}
+			closeRead: t.Pct(40), crCancel: t.Pct(30), netconn: t.Pct(20), abReader: t.Pct(25), abWriter: t.Pct(25), ping: t.Pct(30), writes: t.Draw(3), ending: t.Draw(len(c20Endings))}
 		if p.closeRead {
 			p.abReader, p.netconn = false, false
 		}
@@ -188,8 +189,11 @@ func runC20(r *Run) {
 		}
 		// ---- prior operations
 		var crCtx context.Context
+		crCancel := func() {}
 		if p.closeRead {
-			crCtx = c.CloseRead(bg)
+			uctx, cancel := context.WithCancel(bg)
+			crCancel = cancel
+			crCtx = c.CloseRead(uctx)
 		}
 		var nc io.ReadWriteCloser
 		if p.netconn {
@@ -249,6 +253,12 @@ func runC20(r *Run) {
 			return err
 		}
 		r.S.Park("a." + who + ".end")
+		if p.crCancel && p.ending <= 1 {
+			// the caller's context ends first (this alone closes the connection)
+			crCancel()
+			r.S.Park("a." + who + ".end2")
+		}
+		defer crCancel()
 		var cerr error
 		switch p.ending {
 		case 0, 7:
